@@ -14,7 +14,7 @@ import (
 
 func main() {
 	if len(os.Args) < 2 {
-		fmt.Fprintln(os.Stderr, "usage: lhv check --property Cxx [--tier quick|thorough] | lhv dump --func KEY")
+		fmt.Fprintln(os.Stderr, "usage: lhv check --property Cxx [--tier quick|thorough] | lhv replay FILE | lhv dump --func KEY")
 		os.Exit(2)
 	}
 	cmd := os.Args[1]
@@ -98,6 +98,15 @@ func main() {
 				fmt.Printf("%s\tloop %d decreases %s\n", k, o, res[o])
 			}
 		}
+	case "replay":
+		rest := fs.Args()
+		if len(rest) != 1 {
+			fmt.Fprintln(os.Stderr, "usage: lhv replay <replay file>")
+			os.Exit(2)
+		}
+		code := engine.Replay(p, *repo, rest[0], work)
+		os.RemoveAll(work)
+		os.Exit(code)
 	case "dumpall":
 		engine.DumpAll(p, *fn)
 	case "dump":
